@@ -60,7 +60,8 @@ Theorem C13_server_transfer : forall BUF, (2 <= BUF)%nat -> N.of_nat BUF < U32_L
   | RMore ph' carry outs =>
       CInv BUF (sc_conn y) ph' /\ c_win (sc_conn y) = carry /\
       unsent (sc_conn y) = unsent c ++ flat_map serialize (conts_of outs) /\
-      ys = map (fun r => (fd, sc_gid x, r)) (c_parsed c ++ reqs_of outs (c_files c))
+      ys = map (fun r => (fd, sc_gid x, r)) (c_parsed c ++ reqs_of outs (c_files c)) /\
+      c_parsed (sc_conn y) = [] /\ c_files (sc_conn y) = files_after outs (c_files c) /\ c_pmax (sc_conn y) = c_pmax c
   | RErr outs e =>
       CInv BUF (sc_conn y) PLine /\ c_win (sc_conn y) = [] /\
       unsent (sc_conn y) = unsent c ++ flat_map serialize (conts_of outs ++ [bad_request_response e]) /\
